@@ -8,24 +8,26 @@ Import ListNotations.
 Open Scope string_scope.
 Open Scope list_scope.
 
-(* a value that the snapshot's (setq name <value>) form evaluates back to *)
-Definition snap_safe (v : obj) : bool :=
+(* a value that the form the snapshot writes for it evaluates back to (and whose text is readable: quotable).
+   fl: whether a flavor object is accepted as a value (it is written (find-flavor "name"); the theorem about values
+   leaves it out, the per-run guard of sessions with flavors takes it in). What is left are restrictions of the modelled
+   universe; the only clause that still hides a defect is Arr (a variable holding an array of rank >= 2 is written
+   #2A(...) as it is, which is about the reader, C03). *)
+Fixpoint snap_safe_g (fl : bool) (v : obj) : bool :=
   match v with
-  | L _ | Dot _ _ => quotable v                         (* written quoted *)
-  | Sym s => (is_keyword s && plain_sym s) || existsb (String.eqb s) self_bound   (* [C19-snapshot-symbol-unquoted] *)
-  | Hash kvs => loadable_in v && (List.length kvs <=? 1)%nat   (* [C19-hash-values-unevaluated], [C19-hash-order-unstable] *)
-  | Lam _ _ _ => loadable_in v
-  | Vec _ _ _ => quotable v
+  | L xs => if forallb is_literal xs then quotable v else forallb (snap_safe_g fl) xs
+  | Dot _ _ => if is_literal v then quotable v else loadable_in v
+  | Sym s => plain_sym s                                 (* quoted unless a keyword *)
+  | Hash _ | Lam _ _ _ => loadable_in v                  (* written as their load forms *)
+  | Vec _ _ _ _ => quotable v
   | Arr _ _ _ _ | Opaque _ => false
+  | Inst f slots =>
+      (fix go (l : list (string * obj)) : bool :=
+         match l with [] => true | (k, w) :: r => plain_name k && snap_safe_g fl w && go r end) slots
+  | Flv _ _ _ _ _ _ => fl
   | _ => self_evaluating v
   end.
-
-(* a constant's value is written unquoted and unconverted: it must evaluate to itself [C19-constant-unquoted] *)
-Definition const_safe (v : obj) : bool :=
-  match v with
-  | L _ | Dot _ _ | Hash _ | Lam _ _ _ | Arr _ _ _ _ | Opaque _ => false
-  | _ => self_evaluating v
-  end.
+Definition snap_safe := snap_safe_g false.
 
 (* a user's name: plain, unqualified, and not one of the constants bound to themselves *)
 Definition name_ok (n : string) : bool :=
@@ -33,9 +35,8 @@ Definition name_ok (n : string) : bool :=
 Definition var_ok (kv : string * vrec) : bool :=
   name_ok (fst kv) &&
   match snd kv with
-  | mkV (Some v) _ true => const_safe v
-  | mkV (Some v) _ false => snap_safe v
-  | mkV None _ _ => false                                (* [C19-unbound-variable-garbage] *)
+  | mkV (Some v) _ _ => snap_safe v && no_inst v      (* constants and variables alike: both values go through ppValue *)
+  | mkV None d c => (d =? "")%string && negb c        (* declared, no value: only the defvar is written *)
   end.
 
 (* symbols in head position of a code tree *)
@@ -47,13 +48,13 @@ Fixpoint heads (f : obj) : list string :=
   | L xs => (fix go (l : list obj) : list string := match l with [] => [] | a :: r => heads a ++ go r end) xs
   | _ => []
   end.
-(* functions and macros are reloaded together in name order: a body may only call user functions and use user macros
-   that sort before its own name.  A macro used before it exists is compiled as a call [C19-macro-after-function];
-   a function that is called before it is defined works since slip commit e532307, but it is then registered
-   without its name and the NEXT snapshot writes (defun (x) ...) [C19-forward-reference-nameless]. *)
+(* the macros are reloaded first, in name order, then the functions: a function may use every macro and call every
+   function (a function called before it is defined keeps its name: repo_fixes/C19-15, C19-16); a MACRO whose body uses a
+   macro with a later name is still compiled before that macro exists [C19-macro-uses-later-macro] *)
 Definition calls_ok (funs : list (string * frec)) (kv : string * frec) : bool :=
+  negb (f_macro (snd kv)) ||
   forallb (fun h => match alookup funs h with
-                    | Some _ => String.ltb h (fst kv)
+                    | Some r => negb (f_macro r) || String.ltb h (fst kv)
                     | None => true
                     end) (flat_map heads (f_body (snd kv))).
 Definition fun_ok (funs : list (string * frec)) (kv : string * frec) : bool :=
@@ -65,54 +66,38 @@ Definition sess_ok (s : session) : bool :=
 (* ---- sessions with a flavor and instances of it (evaluated per run; the value-level theorem is
    SessionProofs.inst_value_reloads, the session-level round trip with flavors is not proved) ---- *)
 
-(* a value the snapshot's (setq name <value>) form evaluates back to, instances included: every instance variable's
-   value must itself be such a value (snapshot.go ppInstance passes each through ppValue again) *)
-Fixpoint snap_safe_x (v : obj) : bool :=
-  match v with
-  | Inst f slots =>
-      negb (f =? "inst")%string &&
-      (fix go (l : list (string * obj)) : bool :=
-         match l with [] => true | (k, w) :: r => plain_name k && snap_safe_x w && go r end) slots
-  | Flv _ _ _ _ _ _ => true
-  | _ => snap_safe v
-  end.
+Definition snap_safe_x := snap_safe_g true.
 
-Fixpoint strings_eqb (a b : list string) : bool :=
-  match a, b with
-  | [], [] => true
-  | x :: a', y :: b' => (x =? y)%string && strings_eqb a' b'
-  | _, _ => false
-  end.
 (* every instance inside v is an instance of a flavor of the session, with exactly its instance variables *)
 Fixpoint insts_ok (vars : list (string * vrec)) (v : obj) : bool :=
   match v with
   | Inst f slots =>
+      negb (f =? "inst")%string && negb (f =? "table")%string &&
       match alookup vars f with
       | Some (mkV (Some (Flv f' ivars _ _ _ _)) _ false) => (f' =? f)%string && strings_eqb (map fst ivars) (map fst slots)
       | _ => false
       end &&
       (fix go (l : list (string * obj)) : bool := match l with [] => true | (_, w) :: r => insts_ok vars w && go r end) slots
   | Flv n _ _ _ _ _ => match alookup vars n with Some (mkV (Some (Flv _ _ _ _ _ _)) _ false) => true | _ => false end
+  | L xs => forallb (insts_ok vars) xs
+  | Dot xs tl => forallb (insts_ok vars) xs && insts_ok vars tl
+  | Hash kvs => forallb (fun kv => insts_ok vars (snd kv)) kvs
   | _ => true
   end.
-Fixpoint keys_nodupb (l : list string) : bool :=
-  match l with [] => true | k :: r => negb (existsb (String.eqb k) r) && keys_nodupb r end.
 Definition is_flavor_var (kv : string * vrec) : bool :=
   match snd kv with mkV (Some (Flv _ _ _ _ _ _)) _ _ => true | _ => false end.
 Definition var_ok_x (vars : list (string * vrec)) (kv : string * vrec) : bool :=
   name_ok (fst kv) &&
   match snd kv with
-  | mkV (Some v) _ true => const_safe v
   | mkV (Some (Flv n ivars _ _ _ _)) _ false =>
-      (* the variable a flavor defines; defaults are written evaluated and unquoted [C19-flavor-default-unquoted] *)
+      (* the variable a flavor defines; a default is written as the form that evaluates to it (repo_fixes/C19-19) *)
       (n =? fst kv)%string && keys_nodupb (map fst ivars)
-      && forallb (fun iv => plain_name (fst iv) && self_evaluating (snd iv)) ivars
-  | mkV (Some v) _ false => snap_safe_x v && insts_ok vars v
-  | mkV None _ _ => false
+      && forallb (fun iv => plain_name (fst iv) && loadable_in (snd iv) && no_inst (snd iv)) ivars
+  | mkV (Some v) _ _ => snap_safe_x v && insts_ok vars v
+  | mkV None d c => (d =? "")%string && negb c
   end.
 Definition sess_ok_x (s : session) : bool :=
   forallb (var_ok_x (s_vars s)) (s_vars s)
-  && (List.length (filter is_flavor_var (s_vars s)) <=? 1)%nat      (* [C19-flavor-order-unstable] *)
   && forallb (fun_ok (s_funs s)) (s_funs s).
 
 (* the specification as a decidable statement about one session *)
